@@ -135,6 +135,14 @@ def gen(tier, rng):
         m, csk = bytes.fromhex(e["msg"]), bytes.fromhex(e["sk"])
         out.append(Case("signature", e["set"], [bytes(Par(e["set"]).sig), m, csk, 0, b""],
                         ["in_domain", "crafted-key", "long-chain", "counter-above-255", "corpus", "crate-only"], aux=("core", m, None)))
+    # rare shapes of the FINAL attempt: (key seed, message) pairs whose signature has exactly omega hints, or a hint-free polynomial;
+    # the expected signature is the committed one (validated by the reference when the corpus was made and again by C03's checks)
+    for name, tag in (("c03_exact_omega.json", "exactly-omega-hints"), ("c03_empty_hint_row.json", "hint-free-polynomial")):
+        for e in corpus(name):
+            pk_, sk_ = keygen(e["set"], bytes.fromhex(e["key_seed"]))
+            m = bytes.fromhex(e["msg"])
+            out.append(Case("signature", e["set"], [bytes(Par(e["set"]).sig), m, sk_, 0, b""], ["in_domain", tag, "corpus", "crate-only"],
+                            aux=("stored", m, bytes.fromhex(e["sig"]))))
     # rejection chains of more than 1000 attempts (beyond any 'reasonable' iteration cap, e.g. the 814 of FIPS 204 appendix C):
     # the expected signature is stored with the entry (quick tier); the thorough tier recomputes it with the reference
     for e in corpus("c05_very_long_chains.json"):
